@@ -139,7 +139,7 @@ class Check:
         self.solver_time += dt
         return r, dt
 
-    def prove(self, name, pc, neg_goal, timeout_ms=120000, extra=(), prefer=()):
+    def prove(self, name, pc, neg_goal, timeout_ms=120000, extra=(), prefer=(), allow_unknown=False):
         """discharge: pc ∧ ¬goal must be unsat.  Returns None if proved, else the z3 model."""
         s = z3.Solver()
         s.add(lit_axioms()); s.add(list(pc)); s.add(list(extra)); s.add(neg_goal)
@@ -147,6 +147,10 @@ class Check:
         rec = {'name': name, 'expect': 'unsat', 'result': str(r), 'time_s': round(dt, 4)}
         self.obligations.append(rec)
         if r == z3.unknown:
+            if allow_unknown:
+                self.obligations.pop()
+                self.notes.append(f'supplementary obligation {name}: solver unknown ({s.reason_unknown()}); not counted')
+                return None
             raise Inconclusive(f'solver unknown on obligation {name}: {s.reason_unknown()}')
         if self.tier == 'thorough' or os.environ.get('VERIF_CROSS'):
             self._cross_check(s, name, str(r))
